@@ -84,6 +84,12 @@ def run(tier, replay=None):
         for m in ("sv", "v"):
             rr = os.path.join(d, "runs_%s.ndjson" % m)
             vlib.sh([sx[m], "rand", str(vlib.seed()), str(nrand), str(maxc), rr], check=True, timeout=6000)
+            # the enumerated short sequences (pairs from corner register states, triples straight out of reset; thorough: all triples)
+            PAIRS, BARE, TOTAL = 8 * 8 * 18 * 18, 18 ** 3, 8 * 8 * 18 * 18 + 18 ** 3 + 8 * 8 * 18 ** 3
+            sq = os.path.join(d, "seqs_%s.ndjson" % m)
+            vlib.sh([sx[m], "seqs", "0", str(PAIRS + BARE if tier == "quick" else TOTAL), "1", "200", sq], check=True, timeout=20000)
+            with open(rr, "a") as f:
+                f.write(open(sq).read())
             for pid, binp, inp in progs:
                 inf = os.path.join(d, "in.bin"); open(inf, "wb").write(inp)
                 vlib.sh([sx[m], "run", binp, inf, "60000", rr, pid], check=True, timeout=6000)
@@ -91,7 +97,7 @@ def run(tier, replay=None):
         df = rtllib.first_diff(runs["sv"], runs["v"])
         if df:
             rid = json.loads(df[1])["id"]
-            chk.violation("system-differs:%s" % (rid if not rid.startswith("rand") else "random-program"),
+            chk.violation("system-differs:%s" % ("sequence" if rid.startswith("seq") else rid if not rid.startswith("rand") else "random-program"),
                           "hex.sv with processor.v and with processor.sv behave differently on program %s" % rid, {"sv.json": df[1][:100000], "v.json": df[2][:100000]})
         rf = vlib.split_file(runs["v"], vlib.NCPU, d, "rv")
         outs = vlib.tlc_fold("RtlRunV", "RtlRunV.cfg", [f for f, _ in rf], heap="4g")
